@@ -2,7 +2,11 @@
 (* Judge for driver c09 (real storage.Store with timestamps aged by rewriting the
    files).  Only layer-A state plus the inputs needed to state the two deviations as
    narrowly as the code's formulas: lm/own per blob, volLm/mtime of the volume. *)
-EXTENDS TraceKit
+EXTENDS TraceKit, TtlAssign
+(* Tight = TRUE only in the advisory run: additionally asks for what the statement does not
+   demand (some TTL for every positive number of seconds, alternate ttl = primary ttl);
+   executions it cannot explain are counted in the evidence, never a verdict *)
+CONSTANT Tight
 None == [none |-> TRUE]
 Min(t) == CASE t = "" -> 0 [] t = "3m" -> 3 [] t = "1h" -> 60 [] t = "2h" -> 120 [] OTHER -> 0
 OldDelta == 10000
@@ -67,11 +71,39 @@ THb ==
      \/ Ev.res = "deleted" /\ Deviate("C09-volume-expiry-uses-last-modified") /\ CodeRemovable
         /\ live' = Empty /\ gone' = TRUE
   /\ UNCHANGED <<now, vttl, volLm, mtime, dirty>>
+(* ---- the filer clause (TtlAssign.tla: VolumeTtlFor is stated there and only there) ---- *)
 (* SecondsToTTL: the volume TTL chosen for a filer entry's TTL is never shorter *)
 TSec == /\ IsEvent("sec2ttl") /\ Strict
-        /\ (Ev.sec = 0 => Ev.minutes = 0)
-        /\ (Ev.sec > 0 => Ev.minutes >= (Ev.sec + 59) \div 60)
+        /\ VolumeTtlFor(Ev.sec, Ev.minutes) = TRUE
+        /\ UNCHANGED vars
+(* StorageOption.ToAssignRequests: both requests built for an entry of Ev.sec seconds *)
+TightReqs(sec, p, a) == /\ (sec > 0 => p.present /\ p.ttlok /\ p.minutes > 0)
+                        /\ (a.present => p.present /\ a.ttl = p.ttl)
+TToReq == /\ IsEvent("toreq") /\ Strict
+          /\ (ReqTtlFor(Ev.sec, Ev.pri) /\ ReqTtlFor(Ev.sec, Ev.alt)) = TRUE
+          /\ (Tight => TightReqs(Ev.sec, Ev.pri, Ev.alt)) = TRUE
+          /\ UNCHANGED vars
+(* operation.Assign against a master with scripted answers; Ev.sec >= 0: the requests were built
+   for an entry of that many seconds, so whatever arrives at the master has to cover it *)
+TAssign == /\ IsEvent("assign") /\ Strict
+           /\ AssignA(Ev.reqs, Ev.ans, Ev.seen, Ev.res) = TRUE
+           /\ (Ev.sec >= 0 => \A j \in 1..Len(Ev.seen) : TtlOkFor(Ev.sec, Ev.seen[j])) = TRUE
+           /\ (Tight /\ Ev.sec > 0 => \A j \in 1..Len(Ev.seen) : Ev.seen[j].ttlok /\ Ev.seen[j].minutes > 0) = TRUE
+           /\ UNCHANGED vars
+(* end to end: the volume a file id was really assigned from, as the volume server reports it, against
+   the entry's TTL (esec: what was asked for, or - via post - the TtlSec of the entry the filer stored).
+   via post: the file was written with ?ttl=<ttl> (reqmin minutes), so it has to live exactly that
+   long (first sentence of the statement): the stored entry's TTL is the one asked for. *)
+EntryTtlAsAsked(e) == ~e.reqok \/ (e.esec >= 0 /\ e.esec % 60 = 0 /\ e.esec \div 60 = e.reqmin)
+TE2E == /\ IsEvent("e2e")
+        /\ (~Ev.res.err /\ Ev.vol.found => VolumeTtlFor(Ev.esec, Ev.vol.minutes)) = TRUE
+        /\ (Tight /\ Ev.esec > 0 /\ ~Ev.res.err => Ev.vol.found /\ Ev.vol.minutes > 0) = TRUE
+        /\ \/ Strict /\ (Ev.via = "post" /\ ~Ev.res.err => EntryTtlAsAsked(Ev)) = TRUE
+           \* detectStorageOption0: int32(minutes) * 60 wraps for a ttl above 2^31-1 seconds (68 years)
+           \/ /\ Deviate("C09-filer-ttl-wraps-int32")
+              /\ (Ev.via = "post" /\ ~Ev.res.err /\ Ev.reqok /\ Ev.reqmin > MaxSec \div 60 /\ ~EntryTtlAsAsked(Ev)) = TRUE
         /\ UNCHANGED vars
 TraceNext == TraceReset \/ TraceSkip \/ TWrite \/ TWriteUnch \/ TAge \/ TRead \/ TCompact \/ TCommit \/ THb \/ TSec
+             \/ TToReq \/ TAssign \/ TE2E
 TraceSpec == TraceInit /\ [][TraceNext]_tvars
 =============================================================================
